@@ -139,7 +139,16 @@ def outcome_of(text, want=None, path_bytes_hex=None) -> dict:
         key = (threading.get_ident(), json.dumps(want))
         sel = _SELECTIONS.get(key)
         expect = harness.pairs([tuple(p) for p in want])
-        if sel is None:
+        _COUNT[0] += 1
+        if SCRATCH_ONLY[0] or _COUNT[0] % 4 == 0:
+            # ... or ONE list the client re-fills in place for every load (clear + extend): the same object, other content each time
+            sk = ("scratch", threading.get_ident())
+            sel = _SELECTIONS.get(sk)
+            if sel is None:
+                sel = _SELECTIONS[sk] = []
+            sel.clear()
+            sel.extend(expect)
+        elif sel is None:
             sel = _SELECTIONS[key] = list(expect)
         elif sel != expect:
             return {"ok": False, "err": ["SelectionMutated", f"the caller's want_tracks list was changed by an earlier parse: now {len(sel)} of {len(expect)} pairs"],
@@ -177,6 +186,8 @@ def outcome_of(text, want=None, path_bytes_hex=None) -> dict:
     return {"ok": False, "err": [type(out.exc).__name__, str(out.exc)], "logs": logs}
 
 
+_COUNT = [0]
+SCRATCH_ONLY = [False]  # in every other shard the client has ONE selection list for all its loads and re-fills it in place
 _LAST = threading.local()  # the chart object behind the latest outcome of this thread (histories keep some of them alive)
 
 
@@ -312,6 +323,7 @@ def corpus(rng, n):
                  "tracks": {"GUITAR/EXPERT": {"groups": [{"tick": t, "lanes": {str(k % 5): 2}, "open": None, "forced": False, "tap": False}
                                                          for k, t in enumerate(sorted(set(odd + [last + 2, last + 5, last + 9])))]}}}
         texts.append({"text": gen.render_truth(truth)["text"], "want": None, "res": res_, "kind": "valid", "first_decision_on_a_boundary": True})
+    texts.append({"text": gen.power_of_two_sustain_chart(rng)["text"], "want": None, "res": 192, "kind": "valid", "power_of_two_sustains": True})
     for res_ in (200, 500, 125, 5, 191, 98):
         thr = model.hopo_threshold(res_)
         ticks_ = [0, thr, 2 * thr + 1, 3 * thr + 1, 4 * thr, 5 * thr]
@@ -518,42 +530,6 @@ def threaded_round(rec, texts, base, nthreads, p, seed, rounds_per_thread, first
             rec.key(["threads", nthreads, p, texts[i]["text"][:200], i])
 
 
-def edit_in_place(ch) -> bool:
-    """in-place edits of a returned chart's mutable containers (whatever is a list or dict; tuples and frozen things are left alone)"""
-    done = False
-
-    def wreck(x):
-        nonlocal done
-        try:
-            if isinstance(x, list) and x:
-                x.reverse()
-                x.append(x[0])
-                del x[1:]
-                done = True
-            elif isinstance(x, dict) and x:
-                x.pop(next(iter(x)))
-                done = True
-        except Exception:  # noqa
-            pass
-
-    try:
-        st, ge = ch.sync_track, ch.global_events_track
-        for x in (getattr(st.bpm_events, "events", None), st.time_signature_events, st.anchor_events, ge.text_events, ge.section_events, ge.lyric_events):
-            wreck(x)
-        for m in list(ch.instrument_tracks.values()):
-            for tr in list(m.values()):
-                for n in list(tr.note_events)[:3]:
-                    wreck(n.sustain if isinstance(n.sustain, list) else None)
-                wreck(tr.note_events)
-                wreck(tr.star_power_events)
-                wreck(tr.track_events)
-            wreck(m)
-        wreck(ch.instrument_tracks)
-    except Exception:  # noqa
-        pass
-    return done
-
-
 def history(rec, rng, texts, base, steps):
     prev = None
     last_chart = {}
@@ -623,7 +599,7 @@ def history(rec, rng, texts, base, steps):
             # own purposes (a chart it then throws away). No later parse - of this text or any other - may show a trace of that: a
             # returned container that is also a cache entry, a class-level default or another chart's attribute would
             junk = harness.parse(t["text"], harness.pairs([tuple(p) for p in t["want"]]) if t["want"] else None)
-            if junk.ok and edit_in_place(junk.chart):
+            if junk.ok and harness.edit_in_place(junk.chart):
                 rec.cls("history:application_edited_a_returned_chart_in_place")
             del junk
         if got["ok"] and getattr(_LAST, "chart", None) is not None and rng.random() < 0.25:
@@ -679,6 +655,9 @@ def run_shard(shard, rec, tier, seed):
         harness.finish(rec)
         return
     rng = harness.rng_for(seed, ID, shard["name"], 0)
+    SCRATCH_ONLY[0] = str(shard["name"])[-1:] in "13579"
+    if SCRATCH_ONLY[0]:
+        rec.cls("client_refills_one_selection_list_in_place_for_every_load")
     texts = corpus(rng, shard["texts"])
     if shard.get("kind") == "volume":
         texts += volume_texts(rng)
